@@ -437,7 +437,8 @@ class ParseTheory(CompilerTheory):
             EQ('(%s (ttcons %s %s) %s)' % (F, h, r, n), '(tacons (tast %s %s) (%s %s (+ %s (tcnt %s))))' % (h, n, F, r, n, h)),
             EQ('(%s (ttcons %s %s))' % (N, h, r), '(+ (tcnt %s) (%s %s))' % (h, N, r)),
             EQ('(%s ttnil %s)' % (F, n), 'tanil'), EQ('(%s ttnil)' % N, '0'),
-            '(=> (and (ttwfl (ttcons %s %s)) (ttsupl (ttcons %s %s))) (and (ttwf %s) (ttsup %s) (ttwfl %s) (ttsupl %s)))' % (h, r, h, r, h, h, r, r)),
+            '(=> (and ((_ is ttcons) %s) (ttwfl %s) (ttsupl %s)) (and (ttwf (tthd %s)) (ttsup (tthd %s)) (ttwfl (tttl %s)) (ttsupl (tttl %s))))'
+            % ((ex.fresh('TTL', 'lift_l'),) * 7)),
             'post')
         ex.oblige(st, 'comprehension.requires', AND('(ttwfl %s)' % ctx.e, '(ttsupl %s)' % ctx.e, '(>= %s 0)' % st.comp['avc']), 'pre')
         assert c.ensures == ['(= {result} (tast {ctx} {avc0}))', '(= {avc} (+ {avc0} (tcnt {ctx})))'], 'visitTerm contract changed: update the lift rule'
